@@ -8,6 +8,7 @@ the engine, never merged with ``ite``.  Unimplemented features raise ShimGap.
 """
 
 import builtins
+import functools
 import math
 import operator
 from fractions import Fraction
@@ -115,6 +116,8 @@ def _cast_scalar(x, dt):
             if isinstance(x, int):
                 return Fraction(x)
             if isinstance(x, float):
+                if x != x:
+                    return x          # NaN placeholder (np.empty(...)[:] = np.nan), overwritten before use
                 return symx._to_fraction(x)
             if isinstance(x, SymInt):
                 return symx.wrap(symx.z3.ToReal(x.z))
@@ -1021,6 +1024,15 @@ def sort(a):
     return ndarray(sorted(a._d), a.shape, a.dtype)
 
 
+def argsort(a, kind=None, **kw):
+    """Indices that sort a 1-D array (stable; symbolic comparisons fork)."""
+    a = asarray(a)
+    if a.ndim != 1:
+        raise ShimGap('argsort on %d-d' % a.ndim)
+    idx = sorted(range(len(a._d)), key=functools.cmp_to_key(lambda i, j: -1 if a._d[i] < a._d[j] else (1 if a._d[j] < a._d[i] else 0)))
+    return ndarray(idx, (len(idx),), int64)
+
+
 def exp(a):
     from . import libstubs
     return libstubs.sym_exp(a)
@@ -1054,7 +1066,7 @@ class _Shim:
         for name in ('array', 'asarray', 'zeros', 'empty', 'ones', 'linspace', 'arange', 'diff',
                      'concatenate', 'cumsum', 'nonzero', 'argwhere', 'minimum', 'maximum',
                      'isfinite', 'isnan', 'isscalar', 'ceil', 'floor', 'absolute', 'dot',
-                     'allclose', 'isclose', 'interp', 'sort', 'exp', 'log', 'mean',
+                     'allclose', 'isclose', 'interp', 'sort', 'argsort', 'exp', 'log', 'mean',
                      'issubdtype', 'nan', 'inf'):
             setattr(self, name, g[name])
         self.abs = absolute
